@@ -1300,3 +1300,42 @@ package sdf
 //@   requires tolerance == 0
 //@   ensures [iff-end-points-equal] r <==> a[0] == a[1]
 //@ end
+
+//-----------------------------------------------------------------------------
+// C03: truncated cone. Layer A: Evaluate equals the signed Euclidean distance
+// in the meridian half plane to the (inset) trapezoid (0,-h) (r0,-h) (r1,h)
+// (0,h), minus round, under the struct invariant. Layer B: the constructor
+// establishes that invariant and the inset that makes the rounded surface pass
+// through the nominal radii.
+
+//@ spec segt(px real, py real, ax real, ay real, bx real, by real) = clamp01(((px-ax)*(bx-ax) + (py-ay)*(by-ay)) / (sq(bx-ax) + sq(by-ay)))
+//@ spec segd2(px real, py real, ax real, ay real, bx real, by real) = sq(px - ax - segt(px, py, ax, ay, bx, by)*(bx-ax)) + sq(py - ay - segt(px, py, ax, ay, bx, by)*(by-ay))
+//@ spec trapin(rho real, z real, r0 real, r1 real, h real) = -h < z && z < h && (rho - r0)*(2*h) < (r1 - r0)*(z + h)
+//@ spec trapd2(rho real, z real, r0 real, r1 real, h real) = min(segd2(rho, z, 0, -h, r0, -h), segd2(rho, z, r0, -h, r1, h), segd2(rho, z, r1, h, 0, h))
+
+//@ func ConeSDF3.Evaluate
+//@   property C03
+//@   id EXACT
+//@   opt thorough
+//@   requires s.height > 0 && s.r0 > 0 && s.r1 > 0 && s.l > 0
+//@   requires s.l*s.l == sq(s.r1 - s.r0) + sq(2*s.height)
+//@   requires s.u.X*s.l == s.r1 - s.r0 && s.u.Y*s.l == 2*s.height
+//@   requires s.n.X == s.u.Y && s.n.Y == -s.u.X
+//@   let rho = sqrt(p.X*p.X + p.Y*p.Y)
+//@   ensures [inside-negative] trapin(rho, p.Z, s.r0, s.r1, s.height) ==> r + s.round <= 0 && sq(r + s.round) == trapd2(rho, p.Z, s.r0, s.r1, s.height)
+//@   ensures [outside-positive] !trapin(rho, p.Z, s.r0, s.r1, s.height) ==> r + s.round >= 0 && sq(r + s.round) == trapd2(rho, p.Z, s.r0, s.r1, s.height)
+//@ end
+
+//@ func Cone3D
+//@   property C03
+//@   id invariant
+//@   requires r0 > 0 && r1 > 0
+//@   ensures [half-height] isnil(err) ==> r.height == height/2 - round && r.round == round
+//@   ensures [slope-unit] isnil(err) ==> r.u.Length2() == 1 && r.u.Y > 0
+//@   ensures [slope-direction] isnil(err) ==> r.u.X*height == r.u.Y*(r1 - r0)
+//@   ensures [normal] isnil(err) ==> r.n.X == r.u.Y && r.n.Y == -r.u.X
+//@   ensures [slope-length-of-inset-trapezoid] isnil(err) ==> r.l >= 0 && sq(r.l) == sq(r.r1 - r.r0) + sq(2*r.height)
+//@   ensures [inset-slope-parallel-to-nominal] isnil(err) ==> (r.r1 - r.r0)*height == (r1 - r0)*(2*r.height)
+//@   ensures [offset-surface-through-nominal-base-radius] isnil(err) ==> r.r0 + round*(1 + r.n.Y)/r.n.X == r0
+//@   ensures [offset-surface-through-nominal-top-radius] isnil(err) ==> r.r1 + round*(1 - r.n.Y)/r.n.X == r1
+//@ end
